@@ -326,6 +326,10 @@ def _run_interp(case, ctx):
         scale = float(np.max(np.abs(nb)))
         tol = (4 * eps + 4 * int(allowed.sum()) * 2.3e-16) * scale
         o = out[i].astype(np.float64)
+        if not np.all(np.isfinite(o)):
+            ctx.fail("C15.interp.range", f"bad channel {i}: non-finite values although its {int(allowed.sum())} admissible "
+                                         f"neighbours are finite")
+            continue
         exc = float(np.max(np.maximum(lo - o, o - hi)))
         if scale > 0 and exc > 0 and int(i) not in renorm_rows:
             ctx.stat("range_excess_over_tol", exc / tol)
